@@ -1,4 +1,4 @@
-From Pybtex Require Import Base.Prelude Base.PyChar Base.PyStr Model.CIDict Model.CIDictStr.
+From Pybtex Require Import Base.Prelude Base.PyChar Base.PyStr Model.CIDict Model.CIDictStr Model.CIMulti.
 Require Extraction.
 Require Import ExtrOcamlBasic.
 
@@ -99,10 +99,50 @@ Definition run_set (a : sexp) : sexp :=
             ((EOk SRNone, sobserve str str_eqb lower str_sort probes s0) :: l))]
   end.
 
+(* multi-container operations: (0 i op) op on container i, (1 i) new = c_i.lower(), (2 i cl) new = cl(c_i),
+   (3 i cl) new = cl(c_i.items()), (4 i j) c_i.update(c_j), (5 cl pairs) new = cl(pairs), (6 d0) new defaulting *)
+Definition d_mop (s : sexp) : mop str Z :=
+  let i := d_nat (d_nth s 1) in
+  match d_Z (d_nth s 0) with
+  | 0%Z => MOp i (d_op (d_nth s 2))
+  | 1%Z => MLower i
+  | 2%Z => MCopy i (d_cls (d_nth s 2))
+  | 3%Z => MCopyItems i (d_cls (d_nth s 2))
+  | 4%Z => MUpdateFrom i (d_nat (d_nth s 2))
+  | 5%Z => MNew (d_cls (d_nth s 1)) (d_list d_kv (d_nth s 2))
+  | _ => MNewDefault (d_Z (d_nth s 1))
+  end.
+(* 3: (ops probes from) -> ((result (obs of every live container)) ...) *)
+Definition run_multi (a : sexp) : sexp :=
+  let probes := d_list d_str (d_nth a 1) in
+  L (number (d_nat (d_nth a 2)) 0 (fun b xo => L [e_eres e_ret (fst xo); if b then e_list e_obs (snd xo) else L []])
+       (mrun str Z str_eqb lower probes [] (d_list d_mop (d_nth a 0)))).
+
+(* multi-set operations: (0 i sop), (1 i) lower, (2 i) copy, (3 i j) |=, (4 i j) -=, (5 l) new *)
+Definition d_smop (s : sexp) : smop str :=
+  let i := d_nat (d_nth s 1) in
+  match d_Z (d_nth s 0) with
+  | 0%Z => SMOp i (d_sop (d_nth s 2))
+  | 1%Z => SMLower i
+  | 2%Z => SMCopy i
+  | 3%Z => SMIorFrom i (d_nat (d_nth s 2))
+  | 4%Z => SMIsubFrom i (d_nat (d_nth s 2))
+  | _ => SMNew (d_list d_str (d_nth s 1))
+  end.
+Definition run_multiset (a : sexp) : sexp :=
+  let probes := d_list d_str (d_nth a 1) in
+  match smrun str str_eqb lower str_sort probes [] (d_list d_smop (d_nth a 0)) with
+  | None => L [A 3%Z]
+  | Some l =>
+    L [A 0%Z; L (number (d_nat (d_nth a 2)) 0 (fun b xo => L [e_eres e_sret (fst xo); if b then e_list e_sobs (snd xo) else L []]) l)]
+  end.
+
 Definition dispatch (fn : Z) (a : sexp) : sexp :=
   match fn with
   | 1%Z => run_dict a
   | 2%Z => run_set a
+  | 3%Z => run_multi a
+  | 4%Z => run_multiset a
   | _ => L []
   end.
 
